@@ -83,20 +83,38 @@ def real_render_page(prog, classes, w, budget=None):
 KNOB_SIZES = [128, 0, 1, 2, None]
 
 
-def draw_knobs(ch, cache_variants=("default-locmem",)):
-    """Environment knobs of a run (swarm): id stream, template cache size, media-cache backend."""
-    return {
+# Which ComponentRegistry the generated components live in: the default one, or a private registry (own Library, put
+# among the engine's builtins) whose RegistrySettings carry the run's context_behavior - in "private-opposite" the
+# project-wide COMPONENTS.context_behavior is the OTHER mode, so every place that consults the global setting instead
+# of the registry's shows.  Derived from bits of the id seed (no draw of its own: the draw layout of recorded replay
+# files stays valid; id seed 0 = the simplest choice = default registry).
+REGISTRY_VARIANTS = ["default"] * 5 + ["private", "private-opposite", "private-opposite"]
+
+
+def draw_knobs(ch, cache_variants=("default-locmem",), registries=False):
+    """Environment knobs of a run (swarm): id stream, template cache size, media-cache backend, registry variant."""
+    k = {
         "id_seed": ch.fork_seed("id_seed"),
         "template_cache_size": KNOB_SIZES[ch.weighted([4, 1, 2, 1, 1], "tcs")],
         "cache_variant": cache_variants[ch.draw(len(cache_variants), "cache_variant")],
     }
+    if registries:
+        k["registry"] = REGISTRY_VARIANTS[(k["id_seed"] >> 7) % len(REGISTRY_VARIANTS)]
+    return k
+
+
+def other_mode(mode):
+    return "isolated" if mode == "django" else "django"
 
 
 def start_world(knobs, mode, unique_ids=False):
     w = world.World(id_seed=knobs["id_seed"], unique_ids=unique_ids)
     world.install(w)
-    world.apply_config(mode=mode, template_cache_size=knobs["template_cache_size"],
-                       cache_variant=knobs["cache_variant"])
+    rv = knobs.get("registry", "default")
+    world.apply_config(mode=other_mode(mode) if rv == "private-opposite" else mode,
+                       template_cache_size=knobs["template_cache_size"], cache_variant=knobs["cache_variant"])
+    if rv != "default":
+        world.use_private_registry(mode)
     return w
 
 
